@@ -426,7 +426,9 @@ def engine_run(ch, *, bias=None, unknown_rates=(0.0, 0.0, 0.03, 0.3, 1.0), n_sig
         world=w,
     )
     seams.remove()
+    # the digest covers what the simulated run did (world, reported paths, branching queries, injected faults, verdicts);
+    # harness-side probe counters (e.g. how often the rlimit-bounded path validator gave up) are not part of the run
     stats["digest"] = hashlib.sha1(repr((stats["shape"], stats["descriptor"]["paths"], seams.n_queries,
-                                         sorted(probes.items()), sorted(seams.faults.items()),
+                                         sorted(seams.faults.items()),
                                          [(v["oracle"], v["disc"]) for v in violations])).encode()).hexdigest()
     return violations, stats
